@@ -206,6 +206,9 @@ def draw_cross_params(rng, spec: Spec, dx: dict, dy: dict, *, lazy: bool | None 
         p["alpha"] = a
     p["n_modes"] = rng.randint(2, max(2, min(4, eff[0], eff[1], 2 if min(eff) < 3 else 4)))
     p["n_modes"] = min(p["n_modes"], eff[0], eff[1])
+    if spec.complex_input or spec.hilbert:
+        # scipy's iterative complex SVD needs k < min(shape) of the cross-covariance matrix
+        p["n_modes"] = max(1, min(p["n_modes"], min(eff) - 1))
     p["standardize"] = rng.choice([False, False, True, [True, False]])
     p["use_coslat"] = [(_has_lat(dx) and rng.random() < 0.3), (_has_lat(dy) and rng.random() < 0.3)]
     nan = any(d.get("nan_features") or d.get("nan_samples") for d in (dx, dy))
@@ -316,7 +319,12 @@ def run_query(spec: Spec, obj, q: dict, env: Env):
         return copy.deepcopy(obj.get_params())
     if kind == "transform":
         if spec.family == "single":
-            return obj.transform(env.get(q["X"]), **kw)
+            X = env.get(q["X"])
+            if q.get("wrap") == "list" and not isinstance(X, list):
+                X = [X]                      # a one-element list is accepted wherever a bare object is
+            elif q.get("wrap") == "bare" and isinstance(X, list) and len(X) == 1:
+                X = X[0]
+            return obj.transform(X, **kw)
         if spec.family == "cross":
             return obj.transform(X=env.get(q.get("X")), Y=env.get(q.get("Y")), **kw)
         return obj.transform([env.get(v) for v in q["views"]])
@@ -364,6 +372,8 @@ def draw_queries(rng, spec: Spec, fit: dict, new_ids: list, n_modes: int, *, k: 
             pool.append({"q": "transform", "X": fit["X"], "kw": {"normalized": True}})
             for nid in new_ids:
                 pool.append({"q": "transform", "X": nid})
+            pool.append({"q": "transform", "X": fit["X"], "wrap": "list"})
+            pool.append({"q": "transform", "X": (new_ids or [fit["X"]])[0], "wrap": "list"})
         if spec.has_inverse:
             pool.append({"q": "inverse", "src": "scores", "modes": modes, "a": 1.0, "b": 0.0})
             pool.append({"q": "inverse", "src": "scores", "modes": modes, "a": 0.5, "b": 0.25,
